@@ -22,5 +22,10 @@ def lemmas(tier):
 
 def run(ctx):
     ctx.assume("value positions: scalars at any depth and containers (incl. the top-level one); an iterator sitting on a root tag is not a value position")
-    ctx.assume("marshal/serialize after edits follow by composition: the edited tape is asserted well-formed (refWF) and T6/Z1 cover every well-formed tape within their bounds")
-    run_lemmas(ctx, lemmas(ctx.tier))
+    ctx.assume("marshal/serialize after edits follow by composition: the edited tape is asserted well-formed (refWF) and T6/Z1 cover every "
+               "well-formed tape within their bounds (strings in Strings.B as SetString leaves them, NOP runs as SetNull leaves them); those lemmas "
+               "are run here under this id as well")
+    from . import C10, C11
+    composed = [l for l in C10.lemmas("quick") if l.name.startswith("T6.")]
+    composed += [l for l in C11.z1_lemmas("quick") if not l.name.endswith("strings.T10")]
+    run_lemmas(ctx, lemmas(ctx.tier) + composed)
